@@ -1,0 +1,332 @@
+//go:build verif
+
+// Verification hook for property C03 (add-only, compiled only with `-tags verif`). It extends the C02 driver
+// (verif_hooks_c02.go, not modified) with what the C03 harness needs:
+//
+//   - C03Context / C03Vote: the same deliveries as VerifVoter.Context / Vote, but the events posted on the mux are
+//     returned raw (the CommitEvent with its vote maps, UpdateExistedHeaderEvent, RoundIndexChangeEvent, decoded
+//     SendMessageEvent), and a received vote may carry a chosen sortition proof / voter index / broken signature;
+//   - C03Dump: the counting state of the Voter (every VotesWrapper of the 4-slot ring with, per validator kind and
+//     vote kind, voteCounts, votesInfo membership and addressVotes; the voteOver latches; which wrapper votesMgr
+//     points to);
+//   - VerifC03Chain / NewVerifC03Server: a Server on a scripted chain reader so that the REAL verifySortition,
+//     getLookbackStakeInfo, Server.commit (header assembly via PackVotes) and VerifySideChainHeader can be used:
+//     the harness binds the first two as the Voter's collaborators and gives every CommitEvent to C03Assemble and the
+//     resulting block to the real header verifier.
+//
+// Nothing here changes the behaviour of the package.
+package ucon
+
+import (
+	"crypto/ecdsa"
+	"fmt"
+	"math/big"
+	"runtime"
+	"sort"
+
+	"github.com/youchainhq/go-youchain/bls"
+	"github.com/youchainhq/go-youchain/common"
+	"github.com/youchainhq/go-youchain/core/rawdb"
+	"github.com/youchainhq/go-youchain/core/state"
+	"github.com/youchainhq/go-youchain/core/types"
+	"github.com/youchainhq/go-youchain/crypto"
+	"github.com/youchainhq/go-youchain/params"
+	"github.com/youchainhq/go-youchain/staking"
+)
+
+// VerifC03Msg is a received vote with explicit credential fields.
+type VerifC03Msg struct {
+	VerifVoteMsg
+	Proof    []byte // sortition proof carried by the vote (nil = []byte{1})
+	VoterIdx uint32
+	BadSig   bool // the signature is not recoverable (wrong length)
+}
+
+// VerifC03Step is the raw outcome of one delivery.
+type VerifC03Step struct {
+	Sends    []VerifEvent // decoded own votes leaving the node
+	Commits  []CommitEvent
+	Updates  []UpdateExistedHeaderEvent
+	Rices    []RoundIndexChangeEvent
+	Evidence int
+	Other    int
+	Err      string
+	Invalid  bool
+	Panic    string
+	Puts     int
+}
+
+func (d *VerifVoter) c03run(f func()) (st VerifC03Step) {
+	base := runtime.NumGoroutine()
+	d.DB.Puts = 0
+	d.DB.PutLog = d.DB.PutLog[:0]
+	d.DB.armedAt = 0
+	func() {
+		defer func() {
+			if r := recover(); r != nil {
+				st.Panic = fmt.Sprint(r)
+			}
+		}()
+		f()
+	}()
+	st.Puts = d.DB.Puts
+	for {
+		select {
+		case obj := <-d.sub.Chan():
+			if obj == nil {
+				continue
+			}
+			switch ev := obj.Data.(type) {
+			case SendMessageEvent:
+				st.Sends = append(st.Sends, verifDecode(ev))
+			case CommitEvent:
+				st.Commits = append(st.Commits, ev)
+			case UpdateExistedHeaderEvent:
+				st.Updates = append(st.Updates, ev)
+			case RoundIndexChangeEvent:
+				st.Rices = append(st.Rices, ev)
+			case staking.Evidence:
+				st.Evidence++
+			default:
+				st.Other++
+			}
+			continue
+		default:
+		}
+		if runtime.NumGoroutine() <= base {
+			break
+		}
+		runtime.Gosched()
+	}
+	sort.Slice(st.Sends, func(i, j int) bool { return st.Sends[i].String() < st.Sends[j].String() })
+	return st
+}
+
+// C03Context delivers a ContextChangeEvent.
+func (d *VerifVoter) C03Context(round *big.Int, roundIndex uint32, step uint32, cert bool) VerifC03Step {
+	return d.c03run(func() {
+		d.V.updateContext(ContextChangeEvent{Round: round, RoundIndex: roundIndex, Step: step, Certificate: cert})
+	})
+}
+
+// C03Vote delivers one received vote (processVoteMsg with the given MsgReceivedStatus).
+func (d *VerifVoter) C03Vote(m VerifC03Msg) VerifC03Step {
+	claimed := m.ClaimedBy
+	if claimed == nil {
+		claimed = m.Signer
+	}
+	data := &BlockHashWithVotes{Priority: m.Priority, BlockHash: m.Hash, Round: m.Round, RoundIndex: m.RoundIndex}
+	if !m.NilVote {
+		proof := m.Proof
+		if proof == nil {
+			proof = []byte{1}
+		}
+		sig := VerifSignVote(m.Signer, m.Hash, m.Round, m.RoundIndex)
+		if m.BadSig {
+			sig = sig[:10]
+		}
+		data.Vote = &SingleVote{VoterIdx: m.VoterIdx, Votes: m.Votes, Proof: proof, Signature: sig}
+	}
+	ev := VoteMsgEvent{Msg: &CachedVotesMessage{VotesData: data, addr: crypto.PubkeyToAddress(claimed.PublicKey)}, VType: m.Kind}
+	var err error
+	var invalid bool
+	st := d.c03run(func() { err, invalid = d.V.processVoteMsg(ev, MsgReceivedStatus(m.Status)) })
+	if err != nil {
+		st.Err = err.Error()
+	}
+	st.Invalid = invalid
+	return st
+}
+
+// VerifC03Addr is one addressVotes entry.
+type VerifC03Addr struct {
+	Hash   common.Hash
+	Double bool
+}
+
+// VerifC03Sta is the content of one VoteSta.
+type VerifC03Sta struct {
+	Counts map[common.Hash]uint32
+	Info   map[common.Hash]map[common.Address]uint32 // votesInfo: hash -> sender -> Votes
+	Addrs  map[common.Address]VerifC03Addr
+}
+
+// VerifC03Wrapper is one slot of the VotesWrapperList.
+type VerifC03Wrapper struct {
+	Round      uint64 // from the contexts slice
+	RoundIndex uint32
+	MgrRound   *big.Int // what the chamber VotesManager itself believes
+	MgrIndex   uint32
+	IsVotesMgr bool                                              // Voter.votesMgr points to this wrapper
+	Sta        map[params.ValidatorKind]map[VoteType]VerifC03Sta // chamber/house x prevote/precommit/next/certificate
+}
+
+// VerifC03Dump is the counting state of the Voter.
+type VerifC03Dump struct {
+	Wrappers    []VerifC03Wrapper
+	VoteOver    map[common.Hash]map[params.ValidatorKind]map[VoteType]bool
+	VotesMgrNil bool
+	UpdateEv    *UpdateExistedHeaderEvent
+}
+
+func verifC03Sta(s *VoteSta) VerifC03Sta {
+	s.lock.Lock()
+	defer s.lock.Unlock()
+	out := VerifC03Sta{Counts: map[common.Hash]uint32{}, Info: map[common.Hash]map[common.Address]uint32{}, Addrs: map[common.Address]VerifC03Addr{}}
+	for h, c := range s.voteCounts {
+		out.Counts[h] = c
+	}
+	for h, m := range s.votesInfo {
+		mm := map[common.Address]uint32{}
+		for a, v := range m {
+			mm[a] = v.Votes
+		}
+		out.Info[h] = mm
+	}
+	for a, st := range s.addressVotes {
+		out.Addrs[a] = VerifC03Addr{Hash: st.Hash, Double: st.DoubleVoted}
+	}
+	return out
+}
+
+// C03Dump reads the counting state.
+func (d *VerifVoter) C03Dump() VerifC03Dump {
+	v := d.V
+	out := VerifC03Dump{VoteOver: map[common.Hash]map[params.ValidatorKind]map[VoteType]bool{}, VotesMgrNil: v.votesMgr == nil}
+	for i, w := range v.votesWrappers.wrappers {
+		if i >= len(v.votesWrappers.contexts) {
+			break
+		}
+		r, ri := GetInfoFromHash(v.votesWrappers.contexts[i])
+		ww := VerifC03Wrapper{Round: r, RoundIndex: ri, MgrRound: w.chamber.round, MgrIndex: w.chamber.roundIndex, IsVotesMgr: w == v.votesMgr,
+			Sta: map[params.ValidatorKind]map[VoteType]VerifC03Sta{}}
+		for kind, vm := range map[params.ValidatorKind]*VotesManager{params.KindChamber: w.chamber, params.KindHouse: w.house} {
+			ww.Sta[kind] = map[VoteType]VerifC03Sta{
+				Prevote: verifC03Sta(vm.prevotes), Precommit: verifC03Sta(vm.precommits),
+				NextIndex: verifC03Sta(vm.nextIndexs), Certificate: verifC03Sta(vm.certificates),
+			}
+		}
+		out.Wrappers = append(out.Wrappers, ww)
+	}
+	for h, st := range v.voteOver {
+		m := map[params.ValidatorKind]map[VoteType]bool{params.KindChamber: {}, params.KindHouse: {}}
+		for t, b := range st.chamber {
+			m[params.KindChamber][t] = b
+		}
+		for t, b := range st.house {
+			m[params.KindHouse][t] = b
+		}
+		out.VoteOver[h] = m
+	}
+	if v.votesUpdateEv != nil {
+		cp := *v.votesUpdateEv
+		out.UpdateEv = &cp
+	}
+	return out
+}
+
+// ---------------------------------------------------------------------------------------------------------------
+// A Server on a scripted chain: real credential verification, real header assembly, real header verification.
+
+// VerifC03Chain is a scripted consensus.ChainReader: every look-back resolves to Headers[number] or Default,
+// validator readers are found by ValRoot.
+type VerifC03Chain struct {
+	Params  *params.YouParams
+	Default *types.Header
+	Headers map[uint64]*types.Header
+	Readers map[common.Hash]state.ValidatorReader
+	Updated []*types.Header // headers given to UpdateExistedHeader
+	ByHash  map[common.Hash]*types.Header
+}
+
+func (c *VerifC03Chain) VersionForRound(round uint64) (*params.YouParams, error) {
+	return c.Params, nil
+}
+func (c *VerifC03Chain) VersionForRoundWithParents(round uint64, parents []*types.Header) (*params.YouParams, error) {
+	return c.Params, nil
+}
+func (c *VerifC03Chain) CurrentHeader() *types.Header { return c.Default }
+func (c *VerifC03Chain) GetHeader(hash common.Hash, number uint64) *types.Header {
+	return c.GetHeaderByNumber(number)
+}
+func (c *VerifC03Chain) GetHeaderByNumber(number uint64) *types.Header {
+	if h, ok := c.Headers[number]; ok {
+		return h
+	}
+	return c.Default
+}
+func (c *VerifC03Chain) GetHeaderByHash(hash common.Hash) *types.Header {
+	if h, ok := c.ByHash[hash]; ok {
+		return types.CopyHeader(h)
+	}
+	return nil
+}
+func (c *VerifC03Chain) GetBlock(hash common.Hash, number uint64) *types.Block { return nil }
+func (c *VerifC03Chain) GetBlockByNumber(number uint64) *types.Block           { return nil }
+func (c *VerifC03Chain) GetVldReader(valRoot common.Hash) (state.ValidatorReader, error) {
+	if r, ok := c.Readers[valRoot]; ok {
+		return r, nil
+	}
+	return nil, fmt.Errorf("verif: no validator reader for root %x", valRoot)
+}
+func (c *VerifC03Chain) GetAcReader() rawdb.AcReader { return nil }
+func (c *VerifC03Chain) UpdateExistedHeader(header *types.Header) {
+	c.Updated = append(c.Updated, header)
+	if c.ByHash != nil {
+		c.ByHash[header.Hash()] = header
+	}
+}
+
+type verifC03Inserter struct{ got *types.Block }
+
+func (i *verifC03Inserter) Insert(block *types.Block) error { i.got = block; return nil }
+
+// VerifC03Server wraps a Server built on a VerifC03Chain.
+type VerifC03Server struct {
+	S     *Server
+	Chain *VerifC03Chain
+}
+
+// NewVerifC03Server builds the Server; (round, roundIndex) is the Server's own current context, which
+// verifySortition's leniency for old votes reads.
+func NewVerifC03Server(chain *VerifC03Chain, round *big.Int, roundIndex uint32) *VerifC03Server {
+	mgr := bls.NewBlsManager()
+	s := &Server{chain: chain, currRoundParams: chain.Params, currentRound: round, roundIndex: roundIndex, blsMgr: mgr, blsVerifier: NewBlsVerifier(mgr)}
+	return &VerifC03Server{S: s, Chain: chain}
+}
+
+// SetContext moves the Server's own (round, roundIndex).
+func (w *VerifC03Server) SetContext(round *big.Int, roundIndex uint32) {
+	w.S.currentRound, w.S.roundIndex = round, roundIndex
+}
+
+// VerifySortition is the real Server.verifySortition.
+func (w *VerifC03Server) VerifySortition(pub *ecdsa.PublicKey, data *SortitionData, lb params.LookBackType) error {
+	return w.S.verifySortition(pub, data, lb)
+}
+
+// StakeInfo is the real Server.getLookbackStakeInfo for a voter (isProposer = false).
+func (w *VerifC03Server) StakeInfo(round *big.Int, addr common.Address, lb params.LookBackType) (stake, total *big.Int, threshold uint64, kind params.ValidatorKind, err error) {
+	stake, total, threshold, kind, _, err = w.S.getLookbackStakeInfo(round, addr, false, lb)
+	return
+}
+
+// Assemble runs the real Server.commit on a CommitEvent of the driven Voter and returns the block that would be
+// handed to the chain inserter (nil when PackVotes failed).
+func (w *VerifC03Server) Assemble(d *VerifVoter, ev CommitEvent) *types.Block {
+	ins := &verifC03Inserter{}
+	w.S.voter = d.V
+	w.S.inserter = ins
+	w.S.commit(ev)
+	return ins.got
+}
+
+// UpdateHeader runs the real Server.updateBlockHeader; the merged header (if any) is appended to Chain.Updated.
+func (w *VerifC03Server) UpdateHeader(ev UpdateExistedHeaderEvent) {
+	w.S.updateBlockHeader(ev)
+}
+
+// VerifC03OverThreshold exposes the quorum test with its float64 product.
+func VerifC03OverThreshold(count uint32, threshold uint64, isPos bool) bool {
+	return OverThreshold(count, threshold, isPos)
+}
